@@ -127,3 +127,24 @@ Theorem resolve_webfinger_mixed :
   (snd (fst (resolve_webfinger W is_https resolve cap mk_url c name))).
 Proof. exact resolve_webfinger_mixed_fact. Qed.
 Print Assumptions resolve_webfinger_mixed.
+
+(* the target of an activity (embedded directly or inside an inline Create wrapper, whatever ids they claim) is resolved as part of the activity's document against the activity's id: the object shown was served by the host its id names *)
+Theorem activity_target_provenance :
+  forall (W : url -> entry) (is_https : url -> bool) (resolve : url -> bytes -> option url)
+  (cap : nat) (parse_ref : option url -> text -> option url)
+  (url_parse : text -> option url) (host_of : url -> text),
+  (forall (u : url) (v : bytes) (r : url),
+  ~ is_tagged u -> resolve u v = Some r -> ~ is_tagged r) ->
+  (forall (s : option url) (t : text) (r : url), parse_ref s t = Some r -> ~ is_tagged r) ->
+  (forall (t : text) (r : url), url_parse t = Some r -> ~ is_tagged r) ->
+  forall (c : cache) (act : list (text * jv)) (act_id : option url)
+  (r : jv) (o : obj) (id : url) (c' : cache) (log : list url),
+  mixed_sound W is_https resolve c ->
+  act_id = None \/
+  (exists s : url, act_id = Some s /\ served W is_https resolve host_of (host_of s) (JObj act)) ->
+  target_ref act = Some r ->
+  fetch_unknown W is_https resolve cap parse_ref url_parse host_of c r act_id =
+  (FUOk o (Some id), c', log) ->
+  served W is_https resolve host_of (host_of id) (JObj o) /\ mixed_sound W is_https resolve c'.
+Proof. exact activity_target_provenance_fact. Qed.
+Print Assumptions activity_target_provenance.
